@@ -6,7 +6,7 @@ From PyqspV Require Import Base.Ops.
 Import ListNotations.
 Open Scope Z_scope.
 
-Definition P : Z := 160.
+Definition P : Z := 400.
 Definition scaleZ : Z := 2 ^ P.
 
 Record I := mkI { lo : Z; hi : Z }.
